@@ -32,3 +32,4 @@ def run(ctx):
     S.r03_3_order_independence(ctx)
     S.r02_3_admission(ctx, 'R13.4')
     S.r03_8_whole_node(ctx, 'R13.5')
+    S.r01_4_retag(ctx, 'R13.6')
